@@ -410,7 +410,7 @@ func runC08(c *Ctx) {
 			c08PipelinedReprepareLost(c, i)
 		}
 	}
-	for i := 0; i < c.Pick(32, 600); i++ {
+	for i := 0; i < c.Pick(38, 684); i++ {
 		if c.Mine(i) {
 			c08OddStatements(c, i)
 		}
@@ -608,11 +608,19 @@ func c08OddStatements(c *Ctx, idx int) {
 	stmts := []string{"TRUNCATE ks1.t", "TRUNCATE TABLE ks1.t", "CREATE TABLE IF NOT EXISTS ks1.t2 (k text PRIMARY KEY)", "ALTER TABLE ks1.t WITH comment = ?", "DROP TABLE IF EXISTS ks1.t3",
 		"GRANT SELECT ON ks1.t TO role1", "LIST ROLES", "CREATE INDEX IF NOT EXISTS ON ks1.t (v)", "UPDATE ks1.t SET c = c + 1 WHERE k = ?", "UPDATE ks1.t SET v = ? WHERE k = ? IF v = ?",
 		"INSERT INTO ks1.t (k, v) VALUES (?, now())", "DELETE FROM ks1.t WHERE k = ? IF EXISTS", "SELECT JSON * FROM ks1.t WHERE k = ?", "BEGIN BATCH INSERT INTO ks1.t (k) VALUES (?) APPLY BATCH",
-		"  select * from ks1.t where k = ?", "/* hint */ SELECT * FROM ks1.t WHERE k = ?"}
+		"  select * from ks1.t where k = ?", "/* hint */ SELECT * FROM ks1.t WHERE k = ?",
+		// "@": the client has changed its keyspace (USE ks1) and the statement relies on it: the re-prepare has to happen on a
+		// connection in that keyspace (the backend's id for the text depends on it)
+		"@SELECT * FROM t WHERE k = ?", "@INSERT INTO t (k, v) VALUES (?, 1)", "@UPDATE t SET c = c + 1 WHERE k = ?"}
 	stmt := stmts[idx%len(stmts)]
+	inKeyspace := strings.HasPrefix(stmt, "@")
+	stmt = strings.TrimPrefix(stmt, "@")
 	hosts := 2 + (idx/len(stmts))%2
 	comp := []string{"", "lz4", "snappy"}[(idx/3)%3]
 	key := fmt.Sprintf("odd-statement/%q/h%d/%s", stmt, hosts, comp)
+	if inKeyspace {
+		key += "/after-use"
+	}
 	scenario := map[string]interface{}{"kind": "c08-odd-statement", "idx": idx}
 	c.Step("c08 %s", key)
 	bed, err := px.NewBed(px.BedConfig{Hosts: hosts, NumConns: 1, Keyspaces: []string{"ks1"}, KeepBodies: true})
@@ -628,6 +636,12 @@ func c08OddStatements(c *Ctx, idx int) {
 		return
 	}
 	defer cl.Close()
+	if inKeyspace {
+		if uf, err := cl.Call(2, &message.Query{Query: "USE ks1"}, 10*time.Second); err != nil || uf.OpCode != primitive.OpCodeResult {
+			r.Inconc("c08: USE ks1 failed")
+			return
+		}
+	}
 	pf, err := cl.Call(1, &message.Prepare{Query: stmt}, 10*time.Second)
 	if err != nil {
 		r.Inconc("c08: PREPARE got no reply")
